@@ -123,7 +123,7 @@ def metadata(rng, depth=0, maxdepth=3):
     used = set()
     for _ in range(n):
         k = rng.choice(["a", "b", "note", "k%d" % rng.randrange(100), "é", "键", "x y", "type", "nodes",
-                        "edges", "😀", "a.b"])
+                        "edges", "😀", "a.b", "input_type", "output_type", "shape", "weight", "version"])
         if k in used or k == "metadata":
             continue
         used.add(k)
@@ -132,8 +132,11 @@ def metadata(rng, depth=0, maxdepth=3):
             # (strings that look like other values or like library tags must stay strings)
             v = {"s": rng.choice(["", "hello", "ünï", "多", "a\nb", " lead", "None", "none", "null", "nan", "True", "0",
                                   "[]", "{}", "NIRGraph", "LIF", "metadata", "trail ", "x" * 300])}
-        elif r < 0.35:
+        elif r < 0.31:
             v = pyint(rng.randrange(-5, 1000))
+        elif r < 0.35:
+            # integers at the edges of the 64-bit ranges (a Python int up to 2^64-1 is storable: uint64)
+            v = pyint(rng.choice([2 ** 63, 2 ** 63 + 5, 2 ** 64 - 1, 2 ** 63 - 1, -2 ** 63, 2 ** 62, 2 ** 31, -2 ** 31 - 1]))
         elif r < 0.5:
             v = pyfloat(rng.choice([0.5, -1.25, 3.0, 1e-3]))
         elif r < 0.6:
@@ -229,8 +232,14 @@ def node_recipe(rng, kind, sh=None, dtype=None, meta_p=0.25):
             if np.all(near == 1):
                 near.reshape(-1)[0] = np.nextafter(np.dtype(d).type(1), np.dtype(d).type(2))
             kw.append(["w_in", {"a": d, "sh": list(s), "x": near.tobytes().hex()}])
-        elif r < 0.6:
+        elif r < 0.52:
             kw.append(["w_in", arr(rng, s, d)])
+        elif r < 0.6:
+            # an input weight in a dtype of its own, wider than the parameters', holding values a cast would destroy
+            n = int(np.prod(s)) if s else 1
+            wd = "<f8" if d != "<f8" else rng.choice(["<c16", "<f8"])
+            vals = np.array([rng.choice([0.1, 0.5, 1.5, -0.3, 1.0 / 3]) for _ in range(n)]).astype(np.dtype(wd))
+            kw.append(["w_in", {"a": wd, "sh": list(s), "x": vals.tobytes().hex()}])
         elif r < 0.75 and d == "<f8":
             kw.append(["w_in", pyfloat(rng.choice([1.0, 0.5, -2.0, 0.1]))])
         elif r < 0.85:
@@ -552,6 +561,11 @@ NAMES += ["a\x00b", "\x00x", "nul\x00"]
 # names that look like escape sequences of the characters a link name cannot hold (a writer that escapes '/' must
 # escape its own escape character too)
 NAMES += ["enc%2Ffc1", "%2F", "a%25b", "a%2fb", "x%00y", "a\\b", "a&#47;b", "a%b"]
+# names that look like numbers to some predicates and not to others (digits that int() refuses, non-ASCII decimals),
+# and the numeric labels of legacy sequential graphs, whose alphabetical and numerical orders differ
+NAMES += ["²", "①", "٣", "10", "2", "007", "1e3", "-1", "½"]
+# trailing blanks are part of a name (padding of fixed-width strings is not)
+NAMES += ["relay ", "trail  ", "tab\t"]
 
 
 def rand_name(rng, slash=False):
